@@ -4,7 +4,7 @@ import CssVerif.Lib.Proto
 
 Hand transcription (code points are `Nat`) of
 
-* `cssutils/tokenize2.py:30-31,111-125,217-222` — `Tokenizer.unicodesub` with `_repl`, `Tokenizer.cleanstring`,
+* `cssutils/tokenize2.py:30-37,117-132,219-236` — `Tokenizer.unicodesub` / `Tokenizer.stringsub` with `_repl`,
   and which token types get which of the two,
 * `cssutils/helper.py:41-62,75-131` — `normalize`, `string`, `stringvalue`, `_match_forbidden_in_uri`, `uri`, `urivalue`,
 * `cssutils/util.py:241-266` — `_stringtokenvalue`, `_uritokenvalue`,
@@ -89,32 +89,34 @@ def escMatch (s : Cps) : Option (Nat × Cps) :=
 
 def usub (s : Cps) : Cps := reSub escMatch s
 
-/-! ## `Tokenizer.cleanstring('', ·)` (`tokenize2.py:31`): `r'\\((\r\n)|[\n\r\f])'` -/
+/-! ## `Tokenizer.stringsub(_repl, ·)` (`tokenize2.py:32-37`): one pass over the source text of a STRING / INVALID / URI
+token — `r'\\\\|\\(?:\r\n|[\n\r\f])|\\[0-9a-fA-F]{1,6}(?:\r\n|[\t\r\n\f\x20])?'`; `_repl` returns `''` for a line continuation -/
 
-def cleanMatch (s : Cps) : Option (Nat × Cps) :=
+def strMatch (s : Cps) : Option (Nat × Cps) :=
   match s with
   | c :: d :: t =>
     if c = 0x5C then
-      if d = 13 then (match t with
+      if d = 0x5C then some (2, [0x5C, 0x5C])
+      else if d = 13 then (match t with
         | [] => some (2, [])
         | e :: _ => if e = 10 then some (3, []) else some (2, []))
       else if isNl d then some (2, [])
-      else none
+      else escMatch s
     else none
   | _ => none
 
-def clean (s : Cps) : Cps := reSub cleanMatch s
+def ssub (s : Cps) : Cps := reSub strMatch s
 
-/-- token value as computed in `tokenize2.py:207-222` for the token types that are unescaped -/
+/-- token value as computed in `tokenize2.py:219-253` -/
 inductive TokKind where
-  | string    -- STRING, INVALID: unicodesub then cleanstring
-  | other     -- DIMENSION IDENT URI HASH COMMENT FUNCTION UNICODE-RANGE: unicodesub only
-  | raw       -- every other type: the text as found
+  | string    -- STRING, INVALID, URI: stringsub (escapes decoded, line continuations removed, one pass)
+  | other     -- DIMENSION IDENT HASH FUNCTION UNICODE-RANGE: unicodesub
+  | raw       -- every other type (COMMENT, ATKEYWORD, …): the text as found
 deriving DecidableEq, Repr
 
 def tokValue (k : TokKind) (found : Cps) : Cps :=
   match k with
-  | .string => clean (usub found)
+  | .string => ssub found
   | .other => usub found
   | .raw => found
 
@@ -165,13 +167,16 @@ def stringvalue (s : Cps) : Option Cps :=
 
 /-! ## `helper.uri`, `helper.urivalue`, `Base._uritokenvalue` (`helper.py:105-131`, `util.py:254-266`) -/
 
-/-- `[\(\)\s\;,'"]` (re.U) -/
-def isForb (c : Nat) : Bool := c == 0x28 || c == 0x29 || isSpaceU c || c == 0x3B || c == 0x2C || c == 0x27 || c == 0x22
+/-- `[\(\)\s\;,'"\x00-\x08\x0e-\x1f\x7f]` (re.U) -/
+def isForb (c : Nat) : Bool :=
+  c == 0x28 || c == 0x29 || isSpaceU c || c == 0x3B || c == 0x2C || c == 0x27 || c == 0x22 ||
+  c ≤ 8 || (14 ≤ c && c ≤ 31) || c == 127
 
-/-- `_match_forbidden_in_uri = re.compile(r'''.*?[\(\)\s\;,'"]''', re.U).match`: lazy `.` never crosses `\n` -/
+/-- `_match_forbidden_in_uri = re.compile(r'''.*?[…]''', re.U | re.S).match`: lazy `.` (any character) up to the first
+forbidden one -/
 def forbMatch : Cps → Bool
   | [] => false
-  | c :: t => if isForb c then true else if c = 10 then false else forbMatch t
+  | c :: t => if isForb c then true else forbMatch t
 
 def helperUri (value : Cps) : Cps :=
   let v := if forbMatch value then helperString value else value
@@ -184,9 +189,9 @@ def findIdx (c : Nat) : Cps → Option Nat
 
 def lstrip : Cps → Cps
   | [] => []
-  | c :: t => if isSpaceU c then lstrip t else c :: t
+  | c :: t => if isTerm c then lstrip t else c :: t
 
-/-- `str.strip()` -/
+/-- `str.strip(' \t\r\n\f')`: CSS white space only -/
 def strip (s : Cps) : Cps := (lstrip (lstrip s).reverse).reverse
 
 /-- the common tail of `urivalue` / `_uritokenvalue`: quoted content goes through `stringvalue` -/
@@ -195,12 +200,12 @@ def unquoteUri (u : Cps) : Option Cps :=
   | [] => some []
   | q :: _ => if (q = 0x27 ∨ q = 0x22) ∧ u.getLast? = some q then stringvalue u else some u
 
-/-- `uri[uri.find('(') + 1 : -1].strip()` then unquote -/
+/-- `uri[uri.find('(') + 1 : -1].strip(' \t\r\n\f')` then unquote -/
 def urivalue (u : Cps) : Option Cps :=
   let start := match findIdx 0x28 u with | some i => i + 1 | none => 0
   unquoteUri (strip ((u.dropLast).drop start))
 
-/-- `token[1][4:-1].strip()` then unquote -/
+/-- `token[1][4:-1].strip(' \t\r\n\f')` then unquote -/
 def uritokenvalue (u : Cps) : Option Cps :=
   unquoteUri (strip ((u.dropLast).drop 4))
 
@@ -209,16 +214,16 @@ def uritokenvalue (u : Cps) : Option Cps :=
 /-- `E` for strings: the serializer writes a stored STRING value with `helper.string` -/
 abbrev strE := helperString
 
-/-- `D` for strings: the value the DOM stores for a STRING token text (`tokenize2.py:217-222` then `stringvalue`) -/
+/-- `D` for strings: the value the DOM stores for a STRING token text (`tokenize2.py:232-234` then `stringvalue`) -/
 def strD (tokenText : Cps) : Option Cps := stringvalue (tokValue .string tokenText)
 
 abbrev uriE := helperUri
 
 /-- `D` for URI tokens in values (`prodparser.py:858`) -/
-def uriD (tokenText : Cps) : Option Cps := urivalue (tokValue .other tokenText)
+def uriD (tokenText : Cps) : Option Cps := urivalue (tokValue .string tokenText)
 
 /-- `D` for URI tokens of `@import` / `@namespace` / unknown rules (`util.py:254`) -/
-def uriDTok (tokenText : Cps) : Option Cps := uritokenvalue (tokValue .other tokenText)
+def uriDTok (tokenText : Cps) : Option Cps := uritokenvalue (tokValue .string tokenText)
 
 /-! ## recognisers for the productions (prefix match: length of the token at the start of the input) -/
 
